@@ -3,6 +3,7 @@
 pub mod build;
 pub mod engine;
 pub mod gens;
+pub mod galloc;
 pub mod guard;
 pub mod refsem;
 pub mod spec;
